@@ -80,19 +80,19 @@ Proof. exact greater_is_source. Qed.
    result of AddChainPlasma are inputs of the translations. C12_source_accept_sound restates C12_plasma_sound directly
    about the translated source: nil returned for a user block only if the three conditions of the property hold. *)
 Theorem C12_available_is_the_source : forall fa c u,
-  ZV.gen.Pure.AvailablePlasma c 0 fa 0 u 0 =
+  ZV.gen.PurePlasma.AvailablePlasma c 0 fa 0 u 0 =
   match available fa c u with
   | None => (0, ZV.gen.Pure.Err_new_got_negative_available_plasma)
   | Some v => (v, 0)
   end.
 Proof. exact available_is_source. Qed.
 Theorem C12_available_errors_propagate : forall c e1 fa e2 u e3,
-  e1 <> 0 \/ e2 <> 0 \/ e3 <> 0 -> exists e, e <> 0 /\ ZV.gen.Pure.AvailablePlasma c e1 fa e2 u e3 = (0, e).
+  e1 <> 0 \/ e2 <> 0 \/ e3 <> 0 -> exists e, e <> 0 /\ ZV.gen.PurePlasma.AvailablePlasma c e1 fa e2 u e3 = (0, e).
 Proof. exact available_errors_propagate. Qed.
 Theorem C12_enough_plasma_is_the_source : forall fa c u base f d tp bp addres,
-  let av := ZV.gen.Pure.AvailablePlasma c 0 fa 0 u 0 in
+  let av := ZV.gen.PurePlasma.AvailablePlasma c 0 fa 0 u 0 in
   let total := u64 (difficulty_to_plasma d + f) in
-  ZV.gen.Pure.enoughPlasma tp bp false (fst av) (snd av) f d base 0 addres =
+  ZV.gen.PurePlasma.enoughPlasma tp bp false (fst av) (snd av) f d base 0 addres =
   match enough_plasma fa c u base f d with
   | PPanic => GoSem.Panic
   | PErr 1 => GoSem.Ok (ZV.gen.Pure.Err_constants_ErrNotEnoughPlasma, tp, bp)
@@ -103,8 +103,8 @@ Theorem C12_enough_plasma_is_the_source : forall fa c u base f d tp bp addres,
 Proof. exact enough_plasma_is_source. Qed.
 Theorem C12_source_accept_sound : forall fa c u base f d tp bp total b,
   0 <= c <= u -> 0 <= f < two64 -> 0 <= d < two64 ->
-  let av := ZV.gen.Pure.AvailablePlasma c 0 fa 0 u 0 in
-  ZV.gen.Pure.enoughPlasma tp bp false (fst av) (snd av) f d base 0 0 = GoSem.Ok (0, total, b) ->
+  let av := ZV.gen.PurePlasma.AvailablePlasma c 0 fa 0 u 0 in
+  ZV.gen.PurePlasma.enoughPlasma tp bp false (fst av) (snd av) f d base 0 0 = GoSem.Ok (0, total, b) ->
   b = base /\ base <= total <= MaxPlasmaForAccountBlock /\ total = f + difficulty_to_plasma d /\
   (u - c) + f <= fused_to_plasma fa.
 Proof. exact source_accept_sound. Qed.
